@@ -1,0 +1,7 @@
+//go:build !verif
+
+package desync
+
+func verifChain(obj interface{}, ev string, a, b int, peer Store) {}
+
+func verifChainKind(has bool, err error) int { return 0 }
